@@ -112,25 +112,35 @@ impl<T: Send + Sync + 'static> Probe<T> {
         }
         if react && env.with_sink(self.k, |s| s.live()) && self.tb().is_some() {
             let opts = self.options(false);
-            let c = env.decide("sink", &self.name, &opts);
+            let optr: Vec<&str> = opts.iter().map(|s| s.as_str()).collect();
+            let c = env.decide("sink", &self.name, &optr);
             self.act(&c);
         }
     }
 
     /// options of this sink, nested (inside a handler: with "none") or at top level
-    pub fn options(&self, top: bool) -> Vec<&'static str> {
+    pub fn options(&self, top: bool) -> Vec<String> {
         let cfg = self.env.cfg();
-        let mut o = vec![];
+        let mut o: Vec<String> = vec![];
         if !top {
-            o.push("none");
+            o.push("none".into());
         }
         let (pulls, credit) = self.env.with_sink(self.k, |s| (s.pulls, s.credit));
         if pulls < cfg.max_pull && (!cfg.c14 || credit > 0) {
-            o.push("pull");
+            o.push("pull".into());
         }
-        o.push("term");
+        o.push("term".into());
         if cfg.sink_err {
-            o.push("err");
+            o.push("err".into());
+        }
+        if !top && cfg.reentrant {
+            // re-entrant emission: the sink makes a live listenable upstream emit from inside its handler
+            let g = self.env.lock();
+            for i in g.insts.iter() {
+                if i.live() && g.pups[i.pup - 1].mode != PMode::Pull && i.sent < cfg.max_data {
+                    o.push(format!("kick {}", i.name));
+                }
+            }
         }
         o
     }
@@ -162,7 +172,21 @@ impl<T: Send + Sync + 'static> Probe<T> {
                 let _g = env.call(&self.name, "S", "E", json!(id));
                 tb(Message::Error(e));
             },
-            _ => {},
+            other => {
+                if let Some(name) = other.strip_prefix("kick ") {
+                    let (ix, pup) = {
+                        let g = env.lock();
+                        match g.insts.iter().position(|i| i.name == name) {
+                            Some(ix) => (ix, g.insts[ix].pup),
+                            None => return,
+                        }
+                    };
+                    let k = env.kicker.lock().unwrap_or_else(|e| e.into_inner()).clone();
+                    if let Some(k) = k {
+                        k(ix, pup);
+                    }
+                }
+            },
         }
     }
 }
